@@ -3,6 +3,7 @@ package main
 import (
 	"fmt"
 	"os"
+	"path/filepath"
 	"sort"
 	"strings"
 
@@ -16,6 +17,10 @@ var c20Plants = []string{
 	// 5 duplicate key
 	"local t%d = { a = 1, b = 2, a = 3 }", "local t%d = { a = 1, b = 2, c = 3 }", "local t%d = { [1] = 1, [1] = 2 }", "local t%d = { [1] = 1, [\"1\"] = 2 }",
 	"local t%d = { x = 1, [\"x\"] = 2 }", "local t%d = { [k] = 1, [k] = 2 }", "local t%d = { 1, 2, a = 1 }", "local t%d = { a = { a = 1 }, b = { a = 2 } }",
+	// 5: string keys against name / integer keys with the same text, the empty string key, literal keys the check does not look at
+	"local t%d = { [\"!k\"] = 1, [k] = 2 }", "local t%d = { [\"#int1\"] = 1, [1] = 2 }", "local t%d = { [\"\"] = 1, [\"\"] = 2 }", "local t%d = { [\"\"] = 1, x = 2 }",
+	"local t%d = { [true] = 1, [true] = 2 }", "local t%d = { [1.5] = 1, [1.50] = 2 }", "local t%d = { [-1] = 1, [-1] = 2 }", "local t%d = { [-1] = 1, [1] = 2 }", "local t%d = { [k] = 1, [\"k\"] = 2, k = 3 }",
+	"local t%d = { [1] = 1, [2] = 2, [1] = 3, [2] = 4 }", "local t%d = { [f()] = 1, [f()] = 2 }", "local t%d = { [M.a] = 1, [M.a] = 2 }",
 	// 7 assignment arity
 	"%v, %v = 1, 2, 3", "%v, %v = 1", "%v, %v = f()", "%v, %v = 1, 2", "%v = 1, 2", "%v, %v, %v = 1, %v",
 	// 8 local arity
@@ -26,11 +31,15 @@ var c20Plants = []string{
 	// 13 duplicate parameter
 	"local function f%d(a, b, a) return a end", "local function f%d(a, b, c) return a end", "local function f%d(a, a, a) return a end", "local function f%d(_, _) end",
 	"local g%d = function(x, y, x) end", "function M.m%d(self, self) end",
+	"local function f%d(a, _, a) return a end", "local function f%d(a, b, _, b, a) return a, b end", "local function f%d(_, a, _, a) end", "local function f%d(a, a, _) end", "function M:n%d(self) end",
 	// 14 same operands
 	"if %v == %v then end", "if %v.f == %v.f then end", "if %v < %v then end", "local r%d = %v and %v", "local r%d = %v or %v", "if %v.f == %v[\"f\"] then end",
 	"local c%d = %v .. %v", "local c%d = %v + %v", "local c%d = %v * %v", "local c%d = %v - %v", "local c%d = %v / %v", "local c%d = %v // %v", "local c%d = %v %% %v", "local c%d = %v ^ %v",
 	"local c%d = %v & %v", "local c%d = %v | %v", "local c%d = %v ~ %v", "local c%d = %v << %v", "local c%d = %v >> %v", "local c%d = %v <= %v", "local c%d = %v >= %v", "local c%d = %v > %v", "local c%d = %v ~= %v",
 	"local c%d = %v.f .. %v.f", "local c%d = M:m1() == M:m1()", "local c%d = M:m1() == M:m2()",
+	"local c%d = M[1] == M[2]", "local c%d = M[%v + 1] < M[%v - 1]", "local c%d = M[1].x ~= M[2].x", "local c%d = M[f()] or M[f(1)]", "local c%d = M.x == M.x", "local c%d = M[1] == M[1]", "local c%d = M[%v] == M[%v]",
+	"local c%d = %v == \"!%v\"", "local c%d = M[\"b.c\"] == M.b.c", "local c%d = M.b.c == M[\"b\"].c", "local c%d = (M).x == M.x", "local c%d = (M.x) == (M).x", "local c%d = M[(%v)] == M[%v]", "local c%d = \"#q\" == \"#q\"",
+	"local c%d = nil == nil", "local c%d = not %v == not %v", "local c%d = (f()) == f()", "local c%d = ... == ...", "local c%d = M:m1() == M.m1()",
 	"if f() == f() then end", "if 1 == 1 then end", "if \"s\" == \"s\" then end", "if (%v) == %v then end", "if #%v == #%v then end", "if %v + 1 == %v + 1 then end",
 	// 15 / 16
 	"local o%d = %v or true", "local o%d = true or %v", "local o%d = %v or false", "local a%d = %v and false", "local a%d = false and %v", "local a%d = %v and true",
@@ -41,8 +50,12 @@ var c20Plants = []string{
 	"if M:m1() then elseif M:m2() then end", "if M:m1() then elseif M:m1() then end", "if M.m1() then elseif M.m2() then end", "if M:m1(%v) then elseif M:m1(%v) then end",
 	"if M:m1() then elseif M.m1() then end", "if M.a:m1(1) then elseif M.b:m1(1) then end", "if %v:m1() then elseif %v:m1() then end", "if f(%v) then elseif f(%v, 1) then end",
 	"if %v then elseif vc then elseif %v then end", "if f{1} then elseif f{1} then end", "if f\"s\" then elseif f\"s\" then end",
+	// 19: the else branch is not a condition; float conditions are the same when their values are
+	"if true then f(1) else f(2) end", "if %v then elseif true then f(1) else f(2) end", "if true then elseif true then else end", "if %v then else end",
+	"if %v == 0.1 then elseif %v == 0.1000001 then end", "if %v == 1.5 then elseif %v == 1.50 then end", "if %v == 1e2 then elseif %v == 100.0 then end", "if %v == 0.5 then elseif %v == 5e-1 then end", "if %v == 0x.8 then elseif %v == 0x.8 then end",
 	// 20 self assignment
 	"%v = %v", "%v.f = %v.f", "%v[1] = %v[1]", "%v, %v = %v, %v", "%v = (%v)", "%v.f = %v.g",
+	"M[0.1] = M[0.1000001]", "M[2.5] = M[25e-1]",
 	"va, vb = vc, vb", "M.x, va = vb, va", "va, vb = va, vc", "va, vb, vc = va, vb, vc", "va, vb, vc = vb, vb, vc", "va.f, vb = va.f, vc",
 	// 21 float equality
 	"if %v == 1.5 then end", "if 0.1 ~= %v then end", "if %v == 1 then end", "if %v < 1.5 then end", "if %v == 1e2 then end", "local e%d = %v == 0x.8",
@@ -122,6 +135,9 @@ func genC20Program(r *lib.Rng) string {
 	return strings.Join(lines, "\n") + "\n"
 }
 
+const c20K1 = "identical operands of a comparison / and / or that are not plain access paths (a literal, a call, an operator or a computed index occurs in them: 1 == 1, t[1] == t[1], f() == f(), x + 1 == x + 1) are not reported as type 14: cgBinopExp gives up as soon as the operand name contains a '#' placeholder"
+const c20K2 = "a repeated boolean, float or negated-number key of a table constructor ({ [true] = 1, [true] = 2 }, { [1.5] = 1, [1.5] = 2 }, { [-1] = 1, [-1] = 2 }) is not reported as type 5: GetTableConstuctorKeyStr only knows integer, string and name keys"
+
 var c20Types = map[int]bool{5: true, 7: true, 8: true, 13: true, 14: true, 15: true, 16: true, 19: true, 20: true, 21: true}
 
 func runC20(res *lib.Result, tier string, seed int64, args []string) error {
@@ -138,8 +154,21 @@ func runC20(res *lib.Result, tier string, seed int64, args []string) error {
 	dir := lib.ScratchDir("c20")
 	defer os.RemoveAll(dir)
 	root := lib.NewRng(uint64(seed))
-	for pi := 0; pi < nProg; pi++ {
-		src := genC20Program(root.Fork(uint64(pi)))
+	// corpus first: the canonical replays of the two finding classes and of the repaired false positives
+	corpus, _ := filepath.Glob("/verif/corpus/C20/*.case")
+	sort.Strings(corpus)
+	for pi := -len(corpus); pi < nProg; pi++ {
+		var src string
+		if pi < 0 {
+			b, err := os.ReadFile(corpus[pi+len(corpus)])
+			if err != nil {
+				return err
+			}
+			src = string(b)
+			res.Dist("corpus")
+		} else {
+			src = genC20Program(root.Fork(uint64(pi)))
+		}
 		ans, err := drv.Ask(fmt.Sprintf("pat %s %s", lib.Hex([]byte(src)), lib.ConvTableFor([]byte(src))))
 		if err != nil {
 			return err
@@ -147,9 +176,14 @@ func runC20(res *lib.Result, tier string, seed int64, args []string) error {
 		if strings.HasPrefix(ans, "ERR") {
 			return fmt.Errorf("generator produced an invalid program (%s):\n%s", ans, src)
 		}
-		var model []string
-		if body := strings.TrimPrefix(ans, "OK "); body != "" && body != "OK" {
-			model = strings.Split(body, ";")
+		var model, spec []string
+		body := strings.TrimPrefix(strings.TrimPrefix(ans, "OK"), " ")
+		parts := strings.SplitN(body, " | ", 2)
+		if m := strings.TrimSpace(parts[0]); m != "" && m != "|" {
+			model = strings.Split(strings.TrimSuffix(m, " |"), ";")
+		}
+		if len(parts) == 2 && strings.TrimSpace(parts[1]) != "" {
+			spec = strings.Split(strings.TrimSpace(parts[1]), ";")
 		}
 		if err := lib.WriteWorkspace(dir, map[string]string{"main.lua": src}); err != nil {
 			return err
@@ -172,11 +206,35 @@ func runC20(res *lib.Result, tier string, seed int64, args []string) error {
 		for _, m := range model {
 			res.Dist("type" + m[:strings.Index(m, "@")])
 		}
-		if pi < 2 {
+		if pi >= 0 && pi < 2 {
 			res.Sample(map[string]interface{}{"program": src, "reports": impl})
 		}
 		if strings.Join(impl, " ") != strings.Join(model, " ") {
 			res.AddViolation("impl-vs-model", fmt.Sprintf("pattern diagnostics %v, model predicts %v", impl, model), src, false) // the model is proved equal to the documented patterns (Props/C20), so a program on which the server differs is a failing input
+			continue
+		}
+		// types 14 and 5 against the full-width specification (Spec/Pat.lean): the model may only report less,
+		// and what it leaves out is the two recorded classes (Props/C20 sameOperands_exact / dupKeys_exact)
+		inSpec := map[string]bool{}
+		for _, x := range spec {
+			inSpec[x] = true
+		}
+		inModel := map[string]bool{}
+		for _, x := range model {
+			inModel[x] = true
+			if (strings.HasPrefix(x, "14@") || strings.HasPrefix(x, "5@")) && !inSpec[x] {
+				res.AddViolation("model-vs-spec", fmt.Sprintf("report %s is not an instance of the documented pattern (specification reports %v)", x, spec), src, false)
+			}
+		}
+		for _, x := range spec {
+			if inModel[x] {
+				continue
+			}
+			if strings.HasPrefix(x, "14@") {
+				res.HitKnown("C20-K1", c20K1, src+"\nnot reported: "+x)
+			} else {
+				res.HitKnown("C20-K2", c20K2, src+"\nnot reported: "+x)
+			}
 		}
 	}
 	return nil
